@@ -253,7 +253,7 @@ def _same_units(u, u2, text, dim, sysd):
 
 UNKNOWN = ["x", "Mol", "sec", "µ", "mmm", "KM", "l", "hr", "molecules", "Ms", "kg", "um2x", "mo", "umm", "minute", "dL", "hM"]
 MUTATIONS = ["unknown", "double-sep", "lead-sep", "trail-sep", "plus-exp", "frac-exp", "exp-first",
-             "blank-before-sep", "blank-after-sep", "blank-before-exp", "blank-inside-sym", "kind-conflict",
+             "blank-before-sep", "blank-after-sep", "blank-before-exp", "blank-after-exp", "blank-inside-sym", "kind-conflict",
              "q-glued", "q-nonnumeric", "q-blank-in-unit", "q-two-units"]
 
 
@@ -300,28 +300,37 @@ def mutate(c):
         e = f[i][1] if f[i][1] is not None else 2
         f[i][0], f[i][1] = str(e) + f[i][0], None
         return render(f), False
+    blank = [" ", " ", "\t", "\n", "\r", "\x0b", "\x0c"][(pick // 13) % 7]     # white space is not only U+0020
     if m == "blank-before-sep":
         if len(f) < 2:
             return None
         i = max(i, 1)
-        f[i][2] = " " + f[i][2]
+        f[i][2] = blank + f[i][2]
         return render(f), False
     if m == "blank-after-sep":
         if len(f) < 2:
             return None
         i = max(i, 1)
-        f[i][2] = f[i][2] + " "
+        f[i][2] = f[i][2] + blank
         return render(f), False
     if m == "blank-before-exp":
         e = f[i][1] if f[i][1] is not None else 2
-        f[i][1] = " %d" % e
+        f[i][1] = "%s%d" % (blank, e)
+        return render(f), False
+    if m == "blank-after-exp":
+        # directly after the digits of an explicit exponent, before the next separator
+        if len(f) < 2:
+            return None
+        i = min(i, len(f) - 2)
+        e = f[i][1] if f[i][1] is not None else 2
+        f[i][1] = "%d%s" % (e, blank)
         return render(f), False
     if m == "blank-inside-sym":
         s = f[i][0]
         if len(s) < 2:
             return None
         k = 1 + pick % (len(s) - 1)
-        f[i][0] = s[:k] + " " + s[k:]
+        f[i][0] = s[:k] + blank + s[k:]
         return render(f), False
     if m == "kind-conflict":
         # add a factor whose base unit of some kind differs from one already present
